@@ -26,13 +26,13 @@ CLAIMED["C14"] = ("4/C14", "Real writer -> list-backed stream -> real reader rou
                   "tick-aligned instants, partitioned by the documented encoding: hours-since-previous / minutes-since-1800 / raw), markers, "
                   "pooled strings, inline UTF-8 strings, _ZoneYearOffset (all fields); canonical compact forms of milliseconds and transitions "
                   "asserted on the bytes written; the literal re-encoding of every rule-based zone of both database files is a labelled concrete premise.",
-                  "composite lemmas use primitive channels whose contracts are the primitive lemmas; whole recurrence / alternating-map / precalculated-zone round trips are not claimed (their parts are)")
+                  "composite lemmas use primitive channels whose contracts are the primitive lemmas; recurrence, alternating-map, dictionary and three-period precalculated-zone round trips use primitive / transition channels; a recurrence with from_year <= 0 is read back as INT_MIN (known finding)")
 CLAIMED["C09"] = ("4/C09", "plus_days/plus_weeks: the real _FixedLengthDatePeriodField.add over an abstract calendar (any adjacent year "
                   "lengths >= the measured shortest real year, any month/day-of-year position, |n| <= 10**7) plus per-calendar fast/slow path lemmas "
                   "in (year, day-of-year) coordinates; plus_months/plus_years vs the (year*M + month) reference with day clamping and overflow, "
                   "months-between maximality, Period.between for all 63 time-unit subsets over all pairs of times, YearMonth between, "
                   "normalize / to_duration over the fixed-length total.",
-                  "LocalDate/LocalDateTime between with multi-unit date subsets and Hebrew/Badi month arithmetic are not claimed; per-calendar lemmas use seeded windows in quick")
+                  "LocalDate/LocalDateTime between with multi-unit date subsets and Hebrew/Badi MONTH arithmetic are not claimed (Hebrew year changes are: hebrew_set_year); per-calendar lemmas use seeded windows in quick")
 CLAIMED["C10"] = ("4/C10", "Every LocalTime/OffsetTime accessor over all nanoseconds-of-day (and all offsets); all seven _TimePeriodField additions "
                   "(wrap and whole-day carry) for |amount*unit| <= 10**24 ns; every factory/constructor accepts exactly its documented range; "
                   "LocalDateTime.plus_<unit> over an abstract day-number date (contract C09.plusdays); LocalTime +/- Period per unit; ordering.",
@@ -77,7 +77,7 @@ CLAIMED["C11"] = ("4/C11", "Real OffsetDateTime/OffsetDate/OffsetTime/Instant co
                   "contract C01 + C09): construction local = instant + offset, to_instant inverse, with_offset (both double day carries), "
                   "with_calendar, +/- Duration in all six spellings (instant moves exactly; offset and calendar retained), plus_<unit>, "
                   "value - value = instant difference across offsets and calendars, date/time adjusters, OffsetDate/OffsetTime recombination.",
-                  "ZonedDateTime arithmetic over a symbolic zone is claimed under C05's SymZone lemmas; real-calendar retention lemma in thorough only")
+                  "ZonedDateTime arithmetic over a symbolic zone over a symbolic two-interval zone is the shared lemma zdt_plus_duration (props/zdt.py, also declared by C05); real-calendar retention lemma in thorough only")
 CLAIMED["C16"] = ("4/C16", "All 49 regular and 21 BCL-style week-year rules over an ABSTRACT calendar (arbitrary year start, arbitrary lengths "
                   "353..385 of five adjacent years): round trip of (week-year, week, weekday) for every day of the year, week within the reported "
                   "weeks, week-year within +-1; the same with the calendar range ending exactly at the year's end/start (seeded partitions in quick, "
